@@ -185,6 +185,9 @@ pub(super) fn optimize(
   verif::record(
     optimizable_while_loop.basic_induction_variable_with_loop_guard.guard_operator,
     &only_relevant_induction_loop_variables.multiplier,
+    &only_relevant_induction_loop_variables.immediate,
+    &optimizable_while_loop.basic_induction_variable_with_loop_guard.guard_expression,
+    &optimizable_while_loop.basic_induction_variable_with_loop_guard.initial_value,
   );
 
   Some(LoopInductionVariableEliminationResult {
@@ -194,27 +197,51 @@ pub(super) fn optimize(
   })
 }
 
-/// Verification hook (only with `--cfg samlang_verif`): a log of the eliminations performed,
-/// as (guard operator of the replaced guard: 0 LT, 1 LE, 2 GT, 3 GE; constant multiplier if any).
+/// Verification hook (only with `--cfg samlang_verif`): a log of the eliminations performed, as
+/// (guard operator of the replaced guard: 0 LT, 1 LE, 2 GT, 3 GE; then the multiplier, the
+/// immediate, the guard bound and the initial value of the induction variable, each if it is a
+/// constant).
 #[cfg(samlang_verif)]
 pub(crate) mod verif {
   use super::super::loop_induction_analysis::{GuardOperator, PotentialLoopInvariantExpression};
+  use samlang_ast::mir::Expression;
   use std::sync::Mutex;
 
-  pub(crate) static LOG: Mutex<Vec<(u8, Option<i32>)>> = Mutex::new(Vec::new());
+  pub type Entry = (u8, Option<i32>, Option<i32>, Option<i32>, Option<i32>);
 
-  pub(super) fn record(op: GuardOperator, multiplier: &PotentialLoopInvariantExpression) {
+  pub(crate) static LOG: Mutex<Vec<Entry>> = Mutex::new(Vec::new());
+
+  fn constant(e: &PotentialLoopInvariantExpression) -> Option<i32> {
+    match e {
+      PotentialLoopInvariantExpression::Int(i) => Some(*i),
+      PotentialLoopInvariantExpression::Var(_) => None,
+    }
+  }
+
+  pub(super) fn record(
+    op: GuardOperator,
+    multiplier: &PotentialLoopInvariantExpression,
+    immediate: &PotentialLoopInvariantExpression,
+    guard: &PotentialLoopInvariantExpression,
+    initial_value: &Expression,
+  ) {
     let op = match op {
       GuardOperator::LT => 0,
       GuardOperator::LE => 1,
       GuardOperator::GT => 2,
       GuardOperator::GE => 3,
     };
-    let m = match multiplier {
-      PotentialLoopInvariantExpression::Int(i) => Some(*i),
-      PotentialLoopInvariantExpression::Var(_) => None,
+    let initial = match initial_value {
+      Expression::Int32Literal(i) => Some(*i),
+      _ => None,
     };
-    LOG.lock().unwrap().push((op, m));
+    LOG.lock().unwrap().push((
+      op,
+      constant(multiplier),
+      constant(immediate),
+      constant(guard),
+      initial,
+    ));
   }
 }
 
